@@ -10,7 +10,10 @@ func init() {
 		ID: "C19", Level: "exploration",
 		Batches: []core.Batch{{
 			Name: "bind", Engine: stateless.Engine{}, Quick: 24000, Thorough: 300000,
-			Rule: "a run is non-trivial when at least one honest response was accepted and at least five mutants actually changed the provider response they were applied to",
+			Rule: "a run is non-trivial when at least one honest response was accepted and at least five mutants actually changed the provider response they were applied to", Weight: 1,
+		}, {
+			Name: "core", Engine: stateless.CoreEngine{}, Quick: 6000, Thorough: 150000,
+			Rule: "a run is non-trivial when the real stateless.Core returned at least one honest answer to its caller and at least three requests were answered by the provider with a response that a mutation operator actually changed (or with a lie about the latest height)", Weight: 1,
 		}},
 		Real: []string{
 			"consensus/cometbft/stateless verifyBlock, verifyTransactions, verifyBlockResults, verifyNextValidators, verifyTransactionProof, transactionsWithProofs, stateRootFromBlockTxs/stateRootFromMetaTx (through the verif export shim)",
